@@ -11,7 +11,7 @@ class C19(Prop):
     coq_modules = ["Reg/Check.v", "Reg/Steps.v"]
     level = "proof"
     coq_eval_timeout = 2400
-    rule = ("distinct = distinct input JSON. non-trivial: clean = name with a '/' and a '.'; extract = archive with "
+    rule = ("distinct = distinct input JSON. non-trivial: history = >= 2 installs on one directory; clean = name with a '/' and a '.'; extract = archive with "
             ">= 2 entries, or an entry whose name has a '..' element, or a link/odd/corrupt entry; install = the run "
             "got past name resolution; hwm = a batch of >= 2 concurrent calls or a call with a version different "
             "from the mark; crash = at least one kill was delivered")
@@ -88,6 +88,8 @@ class C19(Prop):
             return len(es) >= 2 or any(e.get("type") not in ("TReg", "TDir") or _dotdot(e["name"]) for e in es)
         if k == "install":
             return i["script"].get("resolve") == "ok"
+        if k == "history":
+            return len(i.get("steps") or []) >= 2
         if k == "hwm":
             b = (i.get("batches") or [[]])[0]
             return len(b) >= 2 or any(x["version"] != i.get("m0") for x in b)
@@ -115,6 +117,11 @@ class C19(Prop):
                                       "matching and the gate being passed, or verification/validation did not precede "
                                       "extraction/installation, or something outside the install directory changed"
                                       if mon else "observable events / places written differ from the model's step order"),
+            "history": "Install history on one directory: " + (
+                "in some step the artifact appeared without the digest matching and the gate of THAT step being "
+                "passed (verifier called in that step and accepting, or unsigned install allowed) - e.g. a verdict "
+                "reused from the cache" if mon else "a step's observable events differ from the model (cache hit only "
+                "skips the download)"),
             "hwm": "VerifyIndex: " + ("the recorded mark decreased, is not the version of the call just accepted (root-"
                                       "signed or freshness-only), moved without an accepted call that passed every "
                                       "check, or an index older than a previously accepted version was accepted" if mon else
@@ -136,6 +143,8 @@ class C19(Prop):
             elif k == "install":
                 d["install_" + str(o.get("result"))] = d.get("install_" + str(o.get("result")), 0) + 1
                 d["install_artifact_appeared"] = d.get("install_artifact_appeared", 0) + bool(o.get("end", {}).get("Final"))
+            elif k == "history":
+                d["history_steps"] = d.get("history_steps", 0) + len(i.get("steps") or [])
             elif k == "hwm":
                 n = len((i.get("batches") or [[]])[0])
                 d["hwm_concurrent_batches"] = d.get("hwm_concurrent_batches", 0) + (n >= 2)
